@@ -22,7 +22,7 @@ NDOCS = 6
 
 
 def plan(tier):
-    return {"n": 160 if tier == "quick" else 20000, "floor": 40 if tier == "quick" else 5000}
+    return {"n": 160 if tier == "quick" else 1280, "floor": 40 if tier == "quick" else 320}
 
 
 def rule(tier):
